@@ -103,7 +103,20 @@ def witness_cases():
                                             {"op": "get", "id": sc.NS + "e1", "datasets": ["a"], "merge": True},
                                             {"op": "get", "id": sc.NS + "e1", "datasets": [], "merge": False},
                                             {"op": "get", "id": sc.NS + "e1299", "datasets": ["a"], "merge": True}]}
-    return [race, txnrace, merged, big, nullprop, http, stale, refused, longbatch,
+    # internal ids are global: after ~965 ids used up in a hidden dataset the 70 entities of a get internal ids around 992..1035,
+    # where the two base64 alphabets of a continuation token differ and where the id crosses 1024; listed one by one, by 7, unpaged
+    # (through the Go API and through the HTTP handler, which validates the token)
+    tokens = {"datasets": ["a"], "ops": [
+        {"op": "burn", "n": 965},
+        {"op": "batch", "ds": "a", "ents": [sc.with_id("e%d" % i, {"props": {"p1": i % 5}, "refs": {}}) for i in range(1, 71)]},
+        {"op": "entities", "ds": "a", "limits": [1]}, {"op": "hentities", "ds": "a", "limits": [1]},
+        {"op": "entities", "ds": "a", "limits": [7]}, {"op": "hentities", "ds": "a", "limits": [0], "ld": True}]}
+    # a batch into b is refused while the writer of a stands between asserting its new ids and committing them: nothing of a's
+    # batch may be lost, and re-posting it adds nothing
+    fresh = [sc.with_id("e7", A), sc.with_id("e8", R1), sc.with_id("e9", B)]
+    shared = {"datasets": ["a", "b"], "ops": [{"op": "batch", "ds": "a", "ents": fresh, "refuse_during": "b"}] + fin_reads(2, ["e7", "e8", "e9"])
+              + [{"op": "restart"}, {"op": "batch", "ds": "a", "ents": fresh}] + fin_reads(2, ["e7", "e8", "e9"])}
+    return [race, txnrace, merged, big, nullprop, http, stale, refused, longbatch, tokens, shared,
         # two tombstones differing in one reference target only: two versions
         {"datasets": ["a"], "ops": [{"op": "batch", "ds": "a", "ents": [sc.with_id("e1", sc.TOMBPAIR[0])]},
                                     {"op": "batch", "ds": "a", "ents": [sc.with_id("e1", sc.TOMBPAIR[1])]}] + fin_reads(1, ["e1"])},
